@@ -568,3 +568,50 @@ def mixed_pseudo_cases(chk, n):
         cases.append(dict(roots=[("Root", samples)], envspec={"datetime": True}, policy=DR.POLICIES[1], fw=fw,
                           layout="flat", kw={}))
     return cases
+
+
+# ---------------------------------------------------------------------- MC_Keys behaviours
+CFG_KEYS = """SPECIFICATION Spec
+CONSTANTS
+  MaxSeg = %d
+  Emit = TRUE
+INVARIANT InDomain
+INVARIANT EmitB
+CHECK_DEADLOCK FALSE
+"""
+KIND_WORDS = {"lower": ["name", "value", "item"], "cap": ["Name", "Value"], "upper": ["NAME", "ID"],
+              "keyword": ["class", "None", "True", "import", "async", "def"], "builtin": ["list", "dict", "id", "type", "print", "max"],
+              "typing": ["Optional", "List", "Any", "Union", "Literal", "Dict"],
+              "fwimport": ["Field", "BaseModel", "field", "dataclass", "attr", "optional", "SQLModel", "convert_strings", "ClassType"],
+              "pydattr": ["json", "copy", "schema_json", "fields", "config", "parse_obj", "validate", "construct"],
+              "nonascii": ["état", "имя", "größe"], "digit": ["1", "42", "0"]}
+
+
+def key_shape_cases(chk, maxseg, limit):
+    r = chk.model_check("MC_Keys", CFG_KEYS % maxseg, "key-shape grammar: every key of <=%d segments over 10 segment kinds x 4 separators" % maxseg, workers=1)
+    shapes = [json.loads(t[1]) for t in tlc.printed_tuples(r["out"], "B")]
+    rng = chk.rng
+    rng.shuffle(shapes)
+    cases = []
+    for shape in shapes[:limit]:
+        key = ""
+        for seg in shape:
+            w = rng.choice(KIND_WORDS[seg["kind"]])
+            if seg["sep"] == "camel":
+                w = w[:1].upper() + w[1:]
+            elif seg["sep"] == "under":
+                w = "_" + w
+            elif seg["sep"] == "hyphen":
+                w = "-" + w
+            key += w
+        other = "zz_other"
+        samples = [{key: {"inner_x": 1, key: rng.choice([1, "s", None])}, other: 1}, {key: {"inner_x": 2}, other: None}]
+        if rng.random() < 0.5:
+            samples = [{key: rng.choice([1, "s", [1], None]), other: {"q": 1}}, {key: rng.choice([2, "t"]), other: {"q": 2}}]
+        fw = rng.choice(FRAMEWORKS)
+        kw = {}
+        if fw in ("attrs", "dataclasses") and rng.random() < 0.5:
+            kw["meta"] = True
+        cases.append(dict(roots=[("Root", samples)], envspec={}, policy=DR.POLICIES[1], fw=fw, layout=rng.choice(["flat", "nested"]), kw=kw,
+                          shape=shape, key=key))
+    return cases, len(shapes)
